@@ -107,12 +107,7 @@ func (k *Key) Order(o2 mast.Key) int {
 			return 0
 		}
 		if v2.Type == v1proto.Type_REAL {
-			if float64(v.Int) < v2.Real {
-				return order(flip, -1)
-			} else if float64(v.Int) > v2.Real {
-				return order(flip, 1)
-			}
-			return 0
+			return order(flip, compareIntFloat(v.Int, v2.Real))
 		}
 		return order(flip, -1)
 	}
@@ -145,6 +140,36 @@ func (k *Key) Order(o2 mast.Key) int {
 	}
 	panic(fmt.Errorf("key comparison %T, %T in unexpected order",
 		k.Value(), k2.Value()))
+}
+
+// compareIntFloat compares an integer with a real exactly, the way SQLite
+// does, instead of rounding the integer to the nearest float64 first (which
+// makes distinct values beyond 2^53 compare equal).
+func compareIntFloat(i int64, r float64) int {
+	if r != r {
+		return 1
+	}
+	if r < -9223372036854775808.0 {
+		return 1
+	}
+	if r >= 9223372036854775808.0 {
+		return -1
+	}
+	y := int64(r)
+	if i < y {
+		return -1
+	}
+	if i > y {
+		return 1
+	}
+	s := float64(i)
+	if s < r {
+		return -1
+	}
+	if s > r {
+		return 1
+	}
+	return 0
 }
 
 func orderType(v, v2 *v1proto.SQLiteValue) (*v1proto.SQLiteValue, *v1proto.SQLiteValue, bool) {
